@@ -491,3 +491,91 @@ Proof.
   unfold serialize. destruct (Z.leb_spec (item_count x) max_items); [|discriminate].
   destruct (_ <=? max_item_size); [|discriminate]. intros [= <-]. auto.
 Qed.
+
+(** * Listings under a re-keyed prefix *)
+
+Lemma pairs_eq (l1 l2 : list (bytes * bytes)) :
+  map fst l1 = map fst l2 -> NoDup (map fst l2) ->
+  (forall k v, (k, v) ∈ l1 -> (k, v) ∈ l2) -> l1 = l2.
+Proof.
+  revert l2. induction l1 as [|[k v] l1 IH]; intros [|[k' v'] l2] Hk Hnd Hin; cbn [map fst] in Hk; try discriminate; [reflexivity|].
+  injection Hk as -> Hk. cbn [map fst] in Hnd. apply NoDup_cons in Hnd as [Hk' Hnd].
+  assert (v = v').
+  { assert (H : (k', v) ∈ (k', v') :: l2) by (apply Hin; left).
+    apply elem_of_cons in H as [[= ->]|H]; [reflexivity|].
+    exfalso. apply Hk'. apply elem_of_list_fmap. exists (k', v). auto. }
+  subst v'. f_equal. apply IH; [exact Hk|exact Hnd|].
+  intros k2 v2 H2. assert (H : (k2, v2) ∈ (k', v) :: l2) by (apply Hin; right; exact H2).
+  apply elem_of_cons in H as [[= -> ->]|H]; [|exact H].
+  exfalso. apply Hk'. rewrite <- Hk. apply elem_of_list_fmap. exists (k', v). auto.
+Qed.
+
+Lemma sfind_unique (p : bytes) (s : store) (L : list (bytes * bytes)) :
+  Sorted bytes_le (map fst L) -> NoDup (map fst L) ->
+  (forall k v, (k, v) ∈ L <-> s !! k = Some v /\ is_prefix p k = true) ->
+  sfind p s = L.
+Proof.
+  intros Hs Hnd Hel. apply pairs_eq; [|exact Hnd|].
+  - apply sorted_keys_unique; [apply Sorted_sfind_keys|exact Hs|apply NoDup_sfind_keys|exact Hnd|].
+    intros k. rewrite !elem_of_list_fmap. split.
+    + intros ([k' v] & -> & Hin). exists (k', v). split; [reflexivity|]. apply Hel. apply elem_of_sfind. exact Hin.
+    + intros ([k' v] & -> & Hin). exists (k', v). split; [reflexivity|]. apply elem_of_sfind. apply Hel. exact Hin.
+  - intros k v Hin. apply Hel. apply elem_of_sfind. exact Hin.
+Qed.
+
+Lemma Sorted_fmap_inv {A B} (R : relation B) (f : A -> B) (l : list A) :
+  Sorted R (map f l) -> Sorted (fun x y => R (f x) (f y)) l.
+Proof.
+  induction l as [|x l IH]; cbn; intros H; [constructor|].
+  apply Sorted_inv in H as [Hs Hh]. constructor; [exact (IH Hs)|].
+  destruct l as [|y l]; constructor. cbn in Hh. apply HdRel_inv in Hh. exact Hh.
+Qed.
+
+Lemma bytes_leb_cons x (a b : bytes) : bytes_leb (x :: a) (x :: b) = bytes_leb a b.
+Proof. cbn. rewrite N.ltb_irrefl, N.eqb_refl. reflexivity. Qed.
+
+Lemma NoDup_fst_filter (P : bytes * bytes -> Prop) `{!forall x, Decision (P x)} (l : list (bytes * bytes)) :
+  NoDup (map fst l) -> NoDup (map fst (filter P l)).
+Proof.
+  induction l as [|a l IH]; cbn [map]; intros Hnd; [constructor|].
+  apply NoDup_cons in Hnd as [Ha Hl]. rewrite filter_cons. destruct (decide (P a)); [|exact (IH Hl)].
+  cbn [map]. apply NoDup_cons. split; [|exact (IH Hl)].
+  intros Hin. apply Ha. apply elem_of_list_fmap in Hin as (b & -> & Hb).
+  apply elem_of_list_filter in Hb as [_ Hb]. apply elem_of_list_fmap. exists b. auto.
+Qed.
+
+Definition rekey_pair (x : N) (kv : bytes * bytes) : bytes * bytes := (x :: fst kv, snd kv).
+
+Lemma map_fst_rekey x (l : list (bytes * bytes)) :
+  map fst (map (rekey_pair x) l) = map (cons x) (map fst l).
+Proof. induction l as [|a l IH]; cbn; [reflexivity|]. f_equal. exact IH. Qed.
+
+Lemma sfind_rekeyed (x : N) (L : nat) (p : bytes) (s s' : store) :
+  (forall k0 : bytes, s' !! (x :: k0) = if (length k0 =? L)%nat then s !! k0 else None) ->
+  sfind (x :: p) s' =
+  map (rekey_pair x) (filter (fun kv : bytes * bytes => length (fst kv) = L) (sfind p s)).
+Proof.
+  intros Hs'. set (Lst := filter (fun kv : bytes * bytes => length (fst kv) = L) (sfind p s)).
+  assert (Hsorted : StronglySorted (fun a b : bytes * bytes => bytes_le (fst a) (fst b)) Lst).
+  { apply StronglySorted_filter. apply Sorted_StronglySorted.
+    - intros a b c. apply bytes_le_trans.
+    - apply Sorted_fmap_inv. apply Sorted_sfind_keys. }
+  apply sfind_unique.
+  - rewrite <- list_fmap_compose.
+    apply (Sorted_fmap _ (fun a b : bytes * bytes => bytes_le (fst a) (fst b)) bytes_le).
+    + intros a b Hab. cbn. unfold bytes_le. rewrite bytes_leb_cons. exact Hab.
+    + apply StronglySorted_Sorted. exact Hsorted.
+  - rewrite map_fst_rekey.
+    assert (Hnd : NoDup (map fst Lst)).
+    { apply NoDup_fst_filter. apply NoDup_sfind_keys. }
+    apply NoDup_fmap_2; [|exact Hnd]. intros a b [= ->]. reflexivity.
+  - intros k v. rewrite elem_of_list_fmap. split.
+    + intros ([k0 v0] & [= -> ->] & Hin). apply elem_of_list_filter in Hin as [Hl Hin]. cbn in Hl.
+      apply elem_of_sfind in Hin as [Hv Hp]. cbn. rewrite Hs'.
+      rewrite (proj2 (Nat.eqb_eq _ _) Hl). rewrite N.eqb_refl. auto.
+    + intros [Hv Hp]. destruct k as [|y k0]; [discriminate|]. cbn in Hp.
+      apply andb_true_iff in Hp as [->%N.eqb_eq Hp]. rewrite Hs' in Hv.
+      destruct (Nat.eqb_spec (length k0) L) as [Hl|]; [|discriminate].
+      exists (k0, v). split; [reflexivity|]. apply elem_of_list_filter. split; [exact Hl|].
+      apply elem_of_sfind. auto.
+Qed.
